@@ -1,7 +1,7 @@
 /-
   C01/Driver — line protocol front end (core-only).
     trace <fuel> <vars|-> <program>    reply: model/spec = t:[v,…];k:normal | k:throw:<v> | k:abrupt:<kind>
-    value <fuel> <vars|-> <program>    reply: model/spec = completion value (or `throw`), dev = completionValue?
+    value <fuel> <vars|-> <program>    reply: model/spec = completion value (or `throw`), dev = - (no region: Thm.program_refines_value)
   Program syntax (no spaces): name(arg,arg,…) – see `stmtOf` / `exprOf`.
 -/
 import OttoVerif.Base.Proto
@@ -119,8 +119,8 @@ def modelTrace (r : MR CSt) : String :=
   | .ok o L σ =>
     let lab := if L.isEmpty then "" else ";labels-not-at-rest"
     match o with
-    | .brk t => traceTok σ.trace ++ ";k:abrupt:break:" ++ t ++ lab
-    | .cont t => traceTok σ.trace ++ ";k:abrupt:continue:" ++ t ++ lab
+    | .brk t _ => traceTok σ.trace ++ ";k:abrupt:break:" ++ t ++ lab
+    | .cont t _ => traceTok σ.trace ++ ";k:abrupt:continue:" ++ t ++ lab
     | .ret v => traceTok σ.trace ++ ";k:abrupt:return:" ++ valTok v ++ lab
     | _ => traceTok σ.trace ++ ";k:normal" ++ lab
 
@@ -149,14 +149,6 @@ def specValue (r : SR CSt) : String :=
   | .throw _ _ => "throw"
   | .ok c _ => if c.t = .normal then valTok (c.v.getD .undef) else "abrupt"
 
-/-- the last statement of the program is an expression statement: the class for which the
-    completion-value theorem is proved; everything else is the `completionValue` region -/
-def lastIsExpr : Stmts → Bool
-  | .nil => false
-  | .cons (.expr _) .nil => true
-  | .cons _ .nil => false
-  | .cons _ ss => lastIsExpr ss
-
 def handle (ws : List String) : String :=
   match ws with
   | [kind, fuel, vars, prog] =>
@@ -173,7 +165,7 @@ def handle (ws : List String) : String :=
         let s := specProgram concreteSem n p σ
         if kind = "trace" then modelTrace m ++ " " ++ specTrace s ++ " -"
         else if kind = "value" then
-          modelValue m ++ " " ++ specValue s ++ " " ++ (if lastIsExpr p then "-" else "completionValue")
+          modelValue m ++ " " ++ specValue s ++ " -"
         else "bad-op"
     | _, _ => "bad-op"
   | _ => "bad-op"
